@@ -234,7 +234,8 @@ extern "C" {
                         {
                             case sqf::runtime::runtime::result::ok:
                             case sqf::runtime::runtime::result::empty:
-                            return result_ok;
+                            // A run that was ended early (maximum runtime reached, exit requested) was not executed to completion
+                            return ref.runtime->is_exit_requested() ? result_failed : result_ok;
 
                             case sqf::runtime::runtime::result::invalid:
                             case sqf::runtime::runtime::result::action_error:
@@ -262,7 +263,8 @@ extern "C" {
                         {
                             case sqf::runtime::runtime::result::ok:
                             case sqf::runtime::runtime::result::empty:
-                            return result_ok;
+                            // A run that was ended early (maximum runtime reached, exit requested) was not executed to completion
+                            return ref.runtime->is_exit_requested() ? result_failed : result_ok;
 
                             case sqf::runtime::runtime::result::invalid:
                             case sqf::runtime::runtime::result::action_error:
@@ -292,7 +294,8 @@ extern "C" {
                         {
                             case sqf::runtime::runtime::result::ok:
                             case sqf::runtime::runtime::result::empty:
-                            return result_ok;
+                            // A run that was ended early (maximum runtime reached, exit requested) was not executed to completion
+                            return ref.runtime->is_exit_requested() ? result_failed : result_ok;
 
                             case sqf::runtime::runtime::result::invalid:
                             case sqf::runtime::runtime::result::action_error:
